@@ -1,6 +1,8 @@
 import IpaVerif.Model.Util
 import IpaVerif.Model.PrimeField
 import IpaVerif.Generated.PrimeFields
+import IpaVerif.Model.Gf2k
+import IpaVerif.Generated.BinaryFields
 /-! Line-protocol handlers for property C08 (model side). Import-free. -/
 namespace IpaVerif.Driver.C08
 open IpaVerif.Util IpaVerif.PrimeField
@@ -39,9 +41,38 @@ def pf (P : Params) (op : String) (args : List String) : Option String :=
   | "sum", [l] => do pure (toString ((← parseNatList l).foldl (add P) 0))
   | _, _ => none
 
+/-! ### binary fields `c08.gf <Type> <op> <args…>`
+
+Elements are canonical integers `< 2^BITS` in decimal. Arithmetic responses are
+`<as_u128> <hex of serialize>` so that the representation (padding included) is compared too. -/
+def gfByName (n : String) : Option Gf2k.Params :=
+  IpaVerif.Generated.binaryFields.find? (·.name == n)
+
+def gfElem (G : Gf2k.Params) (v : Nat) : String := s!"{v} {bytesHex (Gf2k.serialize G v)}"
+
+def gf (G : Gf2k.Params) (op : String) (args : List String) : Option String :=
+  match op, args with
+  | "add", [a, b] | "addassign", [a, b] => do pure (gfElem G (Gf2k.add G (← a.toNat?) (← b.toNat?)))
+  | "sub", [a, b] | "subassign", [a, b] => do pure (gfElem G (Gf2k.sub G (← a.toNat?) (← b.toNat?)))
+  | "neg", [a] => do pure (gfElem G (Gf2k.neg G (← a.toNat?)))
+  | "mul", [a, b] | "mulassign", [a, b] => do
+      match Gf2k.mul G (← a.toNat?) (← b.toNat?) with
+      | some r => pure (gfElem G r)
+      | none => pure "panic"
+  | "trunc", [v] => do pure (gfElem G (Gf2k.truncateFrom G (← v.toNat?)))
+  | "tryfrom", [v] => do pure (optNat (Gf2k.tryFrom G (← v.toNat?)))
+  | "deser", [h] => do pure (optNat (Gf2k.deserialize G (← parseHexBytes h)))
+  | "fromslice", [h] => do pure (optNat (Gf2k.fromSlice G (← parseHexBytes h)))
+  | "cmp", [a, b] => do pure (toString (Gf2k.cmp (← a.toNat?) (← b.toNat?)))
+  | _, _ => none
+
 /-- `some response` if the request belongs to this property, else `none`. -/
 def handle (toks : List String) : Option String :=
   match toks with
+  | "c08.gf" :: f :: op :: args =>
+      match gfByName f with
+      | some G => some ((gf G op args).getD "bad-request")
+      | none => some "bad-request"
   | "c08.pf" :: f :: op :: args =>
       match fieldByName f with
       | some P => some ((pf P op args).getD "bad-request")
@@ -84,9 +115,74 @@ def pfOracle (P : Params) (op : String) (args : List String) (impl : String) : O
   | "ser", [a] => do pure (impl == bytesHex (leBytes (← a.toNat?) (P.storeBits / 8)))
   | _, _ => none
 
+/-! Spec side for the binary fields, written independently of the model of the code: schoolbook
+polynomial multiplication over GF(2) with `Nat.testBit`, then long division by `POLYNOMIAL` from the
+leading coefficient (degree via `Nat.log2`). -/
+def polyMul (a b : Nat) : Nat :=
+  (List.range (b.log2 + 1)).foldl (fun acc i => if b.testBit i then acc ^^^ (a * 2 ^ i) else acc) 0
+
+def polyMod (x m : Nat) : Nat → Nat
+  | 0 => x
+  | fuel + 1 => if m = 0 ∨ x = 0 ∨ x.log2 < m.log2 then x else polyMod (x ^^^ (m * 2 ^ (x.log2 - m.log2))) m fuel
+
+def polyMulMod (a b m : Nat) : Nat := polyMod (polyMul a b) m 400
+
+def parseGfElem (G : Gf2k.Params) (impl : String) : Option Nat :=
+  match impl.splitOn " " with
+  | [v, h] => do
+      let v ← v.toNat?
+      -- canonical: value below 2^BITS, store = little-endian bytes of the value (zero padding)
+      if v < 2 ^ G.bits && h == bytesHex (leBytes v G.storeBytes) then pure v else none
+  | _ => none
+
+def gfOracle (G : Gf2k.Params) (op : String) (args : List String) (impl : String) : Option String :=
+  let ok (b : Bool) (why : String) : Option String := some (if b then "holds" else "fails " ++ why)
+  match op, args with
+  | "add", [a, b] | "addassign", [a, b] | "sub", [a, b] | "subassign", [a, b] => do
+      let a ← a.toNat?
+      let b ← b.toNat?
+      match parseGfElem G impl with
+      | none => ok false "result is not a canonical element (value out of range or non-zero padding)"
+      | some r => ok (r == (a ^^^ b)) "sum/difference differs from the coefficient-wise sum over GF(2)"
+  | "neg", [a] => do
+      let a ← a.toNat?
+      match parseGfElem G impl with
+      | none => ok false "result is not a canonical element (value out of range or non-zero padding)"
+      | some r => ok ((r ^^^ a) == 0) "a + (-a) is not zero"
+  | "mul", [a, b] | "mulassign", [a, b] => do
+      let a ← a.toNat?
+      let b ← b.toNat?
+      match parseGfElem G impl with
+      | none => ok false "product is not a canonical element (panic, value out of range or non-zero padding)"
+      | some r =>
+        if r != polyMulMod a b G.poly then ok false "product differs from polynomial multiplication modulo POLYNOMIAL"
+        else if r == 0 && a != 0 && b != 0 then ok false "zero divisor: the product of two non-zero elements is zero, so POLYNOMIAL is reducible and the type is not a field"
+        else ok true ""
+  | "trunc", [v] => do
+      let v ← v.toNat?
+      match parseGfElem G impl with
+      | none => ok false "result is not a canonical element"
+      | some r => ok (r == v % 2 ^ G.bits) "truncate_from differs from v mod 2^BITS"
+  | "tryfrom", [v] => do
+      let v ← v.toNat?
+      ok (impl == (if v < 2 ^ G.bits then s!"ok {v}" else "err")) "try_from must accept exactly the values below 2^BITS"
+  | "deser", [h] => do
+      let bs ← parseHexBytes h
+      let v := ofLeBytes bs
+      ok (impl == (if bs.length == G.storeBytes && v < 2 ^ G.bits then s!"ok {v}" else "err")) "deserialize must accept exactly the canonical encodings"
+  | "cmp", [a, b] => do
+      let a ← a.toNat?
+      let b ← b.toNat?
+      ok (impl == (if a < b then "0" else if a == b then "1" else "2")) "ordering differs from the integer ordering"
+  | _, _ => none
+
 /-- Property oracle on (request, implementation response). -/
 def oracle (toks : List String) (impl : String) : Option String :=
   match toks with
+  | "c08.gf" :: f :: op :: args =>
+      match gfByName f with
+      | some G => some ((gfOracle G op args impl).getD "unknown")
+      | none => some "unknown"
   | "c08.pf" :: f :: op :: args =>
       match fieldByName f with
       | some P =>
